@@ -434,12 +434,30 @@ def _tail_lists(seq: list) -> typing.Iterator[list]:
     if isinstance(last, ast.If):
         yield from _tail_lists(last.body)
         yield from _tail_lists(last.orelse)
-    elif isinstance(last, ast.Try) and not last.finalbody and not last.orelse:
-        yield from _tail_lists(last.body)
+    elif isinstance(last, ast.Try) and not last.finalbody:
+        yield from _tail_lists(last.orelse if last.orelse else last.body)
         for h in last.handlers:
             yield from _tail_lists(h.body)
     elif isinstance(last, (ast.With, ast.AsyncWith)):
         yield from _tail_lists(last.body)
+
+
+def _absorb_into_try_else(seq: list) -> None:
+    """``try: B except ..: <leaves>`` ; R  ==  ``try: B except ..: <leaves> else: R`` (R runs only when B completed, and
+    is outside the handlers either way)."""
+    from . import equiv
+
+    for k, st in enumerate(seq):
+        if isinstance(st, ast.Try) and not st.finalbody and not st.orelse and st.handlers and all(equiv._terminates(h.body) for h in st.handlers) and seq[k + 1:]:  # pylint: disable=protected-access
+            st.orelse = seq[k + 1:]
+            del seq[k + 1:]
+            _absorb_into_try_else(st.orelse)
+            break
+    for st in seq:
+        for f in ('body', 'orelse'):
+            sub = getattr(st, f, None)
+            if isinstance(sub, list) and sub and isinstance(sub[0], ast.stmt) and not isinstance(st, FUNC + (ast.ClassDef,)):
+                _absorb_into_try_else(sub)
 
 
 def _tail_return_body(fn: ast.AST) -> typing.Optional[list]:
@@ -454,6 +472,7 @@ def _tail_return_body(fn: ast.AST) -> typing.Optional[list]:
         equiv.canonical_tests(clone)
         equiv.flatten_conditionals(clone)
     body = clone.body
+    _absorb_into_try_else(body)
     tails = {id(lst[-1]) for lst in _tail_lists(body) if lst and isinstance(lst[-1], ast.Return)}
     for st in body:
         for x in ast.walk(st):
@@ -478,8 +497,8 @@ def _all_paths_return(seq: list) -> bool:
         return True
     if isinstance(last, ast.If):
         return bool(last.orelse) and _all_paths_return(last.body) and _all_paths_return(last.orelse)
-    if isinstance(last, ast.Try) and not last.finalbody and not last.orelse:
-        return _all_paths_return(last.body) and all(_all_paths_return(h.body) for h in last.handlers)
+    if isinstance(last, ast.Try) and not last.finalbody:
+        return _all_paths_return(last.orelse if last.orelse else last.body) and all(_all_paths_return(h.body) for h in last.handlers)
     if isinstance(last, (ast.With, ast.AsyncWith)):
         return _all_paths_return(last.body)
     return False
